@@ -639,6 +639,9 @@ def check_float(rec, case):
         with np.errstate(all="ignore"):
             return am.convert(name, np.asarray(arr, dtype=LD), LD(Mw), LD(Md))
 
+    def halve(buf):
+        buf *= 0.5
+
     def source(kind):
         if kind in "xq":
             return vals
@@ -657,6 +660,7 @@ def check_float(rec, case):
             want = oracle(name, s)
             bound = am.gamma(am.ROUNDINGS[name] + 1) * np.abs(want).astype(float) + tiny
             first = None
+            reuse_history(rec, case, fns[name], name, s, halve)
             for cont in case["containers"]:
                 with np.errstate(all="ignore"):
                     got = apply_container(fns[name], s, cont)
@@ -793,6 +797,38 @@ def gen_sat_case(rng, nrng, branch=False):
 
 
 SAT_FUNCS = {"ice": "e_eq_ice_mk", "liquid": "e_eq_water_mk", "mixed": "e_eq_mixed_mk"}
+
+
+def reuse_history(rec, case, fn, name, arr, shift):
+    """Call history on one caller-owned buffer: call, change the buffer in place, call again (and once
+    more after scaling the first result in place). A pure conversion answers as for a fresh array."""
+    buf = np.array(arr, dtype=float, copy=True).ravel()
+    if buf.size == 0:
+        return
+    try:
+        with np.errstate(all="ignore"):
+            r1 = fn(buf)
+            shift(buf)
+            r2 = np.array(fn(buf), copy=True)
+            if isinstance(r1, np.ndarray) and r1.flags.writeable:
+                r1 *= 3.0
+            r3 = np.array(fn(buf), copy=True)
+            fresh = np.asarray(fn(buf.copy()))
+    except Exception:
+        return  # exceptions are judged by the single-call checks
+    rec.count("history.buffer_reuse_calls")
+    for tag, r in (("second call after in-place update of the argument", r2),
+                   ("third call after the first result was scaled in place", r3)):
+        if r.shape != fresh.shape or not np.array_equal(r, fresh, equal_nan=True):
+            bad = np.flatnonzero(~((r == fresh) | (np.isnan(r) & np.isnan(fresh)))) \
+                if r.shape == fresh.shape else np.array([0])
+            j = int(bad[0])
+            rec.violation("stale-state", case, {"function": name, "history": tag, "index": j,
+                                                "container": "1d",
+                                                "arg": float(buf[j]) if j < buf.size else None,
+                                                "got": _brief(r.ravel()[j] if r.size > j else r),
+                                                "fresh": _brief(fresh.ravel()[j] if fresh.size > j else fresh)})
+            return
 
 
 def check_sat(rec, case):
@@ -943,6 +979,13 @@ def check_sat(rec, case):
                                    "T": [float(Ts[j]), float(Ts[j + 1])],
                                    "e": [float(ms[j]), float(ms[j + 1])],
                                    "allowed_step": float(allow[j])})
+    def warmer(buf):
+        buf += 1.0
+
+    for name, tname in SAT_FUNCS.items():
+        if only and only not in (name, "pair"):
+            continue
+        reuse_history(rec, case, getattr(atm, tname), name, T, warmer)
     rec.nontriv([case["kind"], case["cls"], sorted(case["containers"])],
                 [case["T"][:16], len(case["T"])])
 
